@@ -265,12 +265,14 @@ func evaluateNoUnionInstanceMethod(
 		return err
 	}
 
-	if methodT.IsConditionalReturn {
-		methodT = conditioningMethodReturn(m, class, methodT, evaluatedArgs)
-	}
-
+	// copy before picking a conditional return: the picked variant carries no frame, so
+	// it would not be recognised as part of a builtin entry afterwards
 	if methodT.IsBuiltinMethod() {
 		methodT = methodT.DeepCopy()
+	}
+
+	if methodT.IsConditionalReturn {
+		methodT = conditioningMethodReturn(m, class, methodT, evaluatedArgs)
 	}
 
 	returnT := calculateExecutionType(m, methodT, evaluatedArgs)
